@@ -91,8 +91,18 @@ class SetupCfgWriter(DependencyWriter):
             ][-1]
             dep_sep = ","
 
+        # Only look at or below the `install_requires` entry: the same requirement
+        # line may also appear in an earlier entry such as `setup_requires`
+        install_requires_idx = next(
+            (
+                idx
+                for idx, line in enumerate(clean_lines)
+                if line.startswith("install_requires")
+            ),
+            0,
+        )
         try:
-            last_dep_idx = clean_lines.index(last_dep_line)
+            last_dep_idx = clean_lines.index(last_dep_line, install_requires_idx)
         except ValueError:
             # we were unable to find the last req line due to some formatting issue
             logger.debug("Unable to add dependencies to setup.cfg file.")
